@@ -8,10 +8,11 @@ mkdir -p .build evidence/replay lean/Faithful/Generated
 ./.build/extract /repo lean/Faithful/Generated
 python3 - <<PY
 import glob
-mods=["import "+f[5:-5].replace("/",".") for f in sorted(glob.glob("lean/Faithful/Lib/*.lean")+glob.glob("lean/Faithful/Properties/*.lean"))]
+mods=["import "+f[5:-5].replace("/",".") for f in sorted(glob.glob("lean/Faithful/Lib/*.lean")+glob.glob("lean/Faithful/Properties/*.lean")+glob.glob("lean/Faithful/Ties/*.lean"))]
 open("lean/Faithful.lean","w").write("\n".join(mods)+"\n")
 PY
 # each property builds its own targets again in ./check; a module that fails here must not stop the others
 cd lean
 for f in Faithful/Properties/C*.lean; do p=$(basename $f .lean); lake build Faithful.Properties.$p fdrv-$p >/dev/null 2>&1 || echo "setup: $p does not build"; done
+for f in Faithful/Ties/C*.lean; do [ -f "$f" ] || continue; p=$(basename $f .lean); lake build Faithful.Ties.$p >/dev/null 2>&1 || echo "setup: tie module $p does not build"; done
 echo setup ok
